@@ -23,7 +23,10 @@ RULE = ("scenes from the seed: 4..6 (thorough 4..8) cells per axis (>= 2*thickne
         "for 2 steps with active PML from random states s1, s2 and a s1 + b s2 (sources at the matching factors) "
         "superposes; (2) the probed source terms are linear in the factors; (3) one forward() step "
         "(simulate_boundaries=False) from a s1 + b s2 with sources vs the Lean model; (4) compute_energy / "
-        "compute_poynting_flux vs model; (5) step_cpml cells vs model. One amplitude scene per run (thorough: 5) has a plane "
+        "compute_poynting_flux vs model; (5) step_cpml cells vs model; (6) forward() with ACTIVE PML and random psi arrays vs "
+        "the CPML model pmlfwd (fields and psi; the superposition (1) includes the psi arrays). Full-tensor scene (one per run, "
+        "thorough 6): 9-component inv_eps / inv_mu / sigma tensors, forward() x2 from s1, s2, a s1 + b s2 superposes and "
+        "matches the any-tier model afwd. One amplitude scene per run (thorough: 5) has a plane "
         "source plus a small Lorentz / Drude block elsewhere in the volume (dispersive H-side temporal filter of the TFSF "
         "source; oracle-only, no model comparison). Placed-factor scene (always one in quick, thorough 4): UniformPlaneSource and GaussianPlaneSource "
         "with normalize_by_energy=False and a UniformPlaneSource with the default normalisation get their "
@@ -528,24 +531,44 @@ def _fwd(sc, objs, arrays, t, n, sim=True):
     return np.asarray(st[1].fields.E), np.asarray(st[1].fields.H)
 
 
+def _fwd_full(sc, objs, arrays, t, n, sim=True):
+    """like _fwd, also returns the psi dictionaries of the PML objects"""
+    j = Y.J()
+    st = (j["jnp"].asarray(t, dtype=j["jnp"].int32), arrays)
+    for _ in range(n):
+        st = j["forward"](st, sc.config, objs, key=j["jax"].random.PRNGKey(0), record_detectors=False, record_boundaries=False,
+                          simulate_boundaries=sim)
+    f = st[1].fields
+    return np.asarray(f.E), np.asarray(f.H), f.psi_E, f.psi_H
+
+
+def _psi_lin(a, p1, b, p2):
+    jnp = Y.J()["jnp"]
+    return {k: tuple(jnp.asarray(a * np.asarray(x) + b * np.asarray(y)) for x, y in zip(p1[k], p2[k])) for k in p1}
+
+
 def forward_superposition(c, sc):
-    """forward() with active PML, 2 steps, random initial states: returns (detail or None, data for the model part)"""
+    """forward() with active PML, 2 steps, random initial fields AND random psi arrays of every PML: the whole state
+    (E, H, psi_E, psi_H) superposes; returns (detail or None, data for the model part)"""
+    from . import cpml_api as P
     A = c["amps"]
     inv_eps, sig_e, r = materials(c, sc)
     n3 = (3,) + tuple(c["shape"])
     s1 = (r.standard_normal(n3), r.standard_normal(n3))
     s2 = (r.standard_normal(n3), r.standard_normal(n3))
+    q1, q2 = P.random_psi(sc, r), P.random_psi(sc, r)
     a, b = A["a"], A["b"]
     two = len(c["sources"]) == 2
     am1 = [A["alpha"], 0.0] if two else [A["alpha"]]
     am2 = [0.0, A["beta"]] if two else [0.0]
     am3 = [a * A["alpha"], b * A["beta"]] if two else [a * A["alpha"]]
     s3 = (a * s1[0] + b * s2[0], a * s1[1] + b * s2[1])
+    q3 = (_psi_lin(a, q1[0], b, q2[0]), _psi_lin(a, q1[1], b, q2[1]))
     t = min(c["t"], c["steps"] - 2)
     outs = []
-    for am, s in ((am1, s1), (am2, s2), (am3, s3)):
-        arr = Y.with_state(sc, s[0], s[1], inv_eps=inv_eps, sig_e=sig_e)
-        outs.append(_fwd(sc, with_amps(sc, am), arr, t, 2, sim=True))
+    for am, s, q in ((am1, s1, q1), (am2, s2, q2), (am3, s3, q3)):
+        arr = P.with_psi(Y.with_state(sc, s[0], s[1], inv_eps=inv_eps, sig_e=sig_e), q[0], q[1])
+        outs.append(_fwd_full(sc, with_amps(sc, am), arr, t, 2, sim=True))
     detail = None
     for k, nm in ((0, "E"), (1, "H")):
         ref = a * outs[0][k] + b * outs[1][k]
@@ -553,7 +576,109 @@ def forward_superposition(c, sc):
         if not e <= TOL:
             detail = f"forward() x2 at t={t}: {nm}(a*s1 + b*s2; a*src1 + b*src2) differs from a*{nm}(s1;src1) + b*{nm}(s2;src2) by {e:.3e}"
             break
-    return detail, dict(s3=s3, am=(am1, am2, am3), t=t, inv_eps=inv_eps, sig_e=sig_e, a=a, b=b)
+    if detail is None:
+        for k, nm in ((2, "psi_E"), (3, "psi_H")):
+            for name in outs[2][k]:
+                for idx in (0, 1):
+                    x1, x2, x3 = (np.asarray(o[k][name][idx]) for o in outs)
+                    e = _rel(x3, a * x1 + b * x2, max(abs(a) * _mx(x1), abs(b) * _mx(x2)))
+                    if not e <= TOL:
+                        detail = f"forward() x2 at t={t}: {nm}[{name}][{idx}] of the combined state differs from a*psi1 + b*psi2 by {e:.3e}"
+    return detail, dict(s3=s3, q3=q3, am=(am1, am2, am3), t=t, inv_eps=inv_eps, sig_e=sig_e, a=a, b=b)
+
+
+def pml_model_part(ctx, c, sc, d):
+    """forward() with ACTIVE PML (simulate_boundaries=True) from a non-zero state with non-zero psi and real sources vs
+    the CPML model `pmlfwd` (Cpml.forwardP — the definition the whole-loop linearity theorems are about)"""
+    from . import cpml_api as P
+    if not P.pml_list(sc):
+        return 0
+    t, inv_eps, sig_e = d["t"], d["inv_eps"], d["sig_e"]
+    objs = with_amps(sc, d["am"][2])
+    jE, jH = probe_sources(sc, objs, t, inv_eps, sig_e, c["shape"])
+    E3, H3 = d["s3"]
+    qE, qH = d["q3"]
+    arr = P.with_psi(Y.with_state(sc, E3, H3, inv_eps=inv_eps, sig_e=sig_e), qE, qH)
+    iE, iH, pE, pH = _fwd_full(sc, objs, arr, t, 1, sim=True)
+    inv_mu = np.asarray(sc.arrays.inv_permeabilities, dtype=np.float64)
+    tail = Y.request(sc, "x", E3, H3, inv_eps, inv_mu, sig_e, None, (jE, jH), 1).split(" ", 2)[2]
+    line = " ".join(["pmlfwd", "1"] + P.pmls_tokens(sc, qE, qH)) + " " + tail
+    (mE, mH), mpsi = P.decode(ctx.driver.ask(line), sc, 2, 4)
+    ctx.expect_close("forward() with active PML vs pmlfwd (fields)", c, np.concatenate([iE.ravel(), iH.ravel()]),
+                     np.concatenate([mE.ravel(), mH.ravel()]))
+    ipsi = np.concatenate([np.concatenate([np.asarray(pE[p.name][0]).ravel(), np.asarray(pE[p.name][1]).ravel(),
+                                           np.asarray(pH[p.name][0]).ravel(), np.asarray(pH[p.name][1]).ravel()]) for p in P.pml_list(sc)])
+    mps = np.concatenate([np.concatenate([x.ravel() for x in mpsi[p.name]]) for p in P.pml_list(sc)])
+    ctx.expect_close("forward() with active PML vs pmlfwd (psi)", c, ipsi, mps)
+    return len(P.pml_list(sc))
+
+
+# ------------------------------------------------------------------------------------------ full 3x3 tensors
+def gen_aniso_case(rng, thorough):
+    c = {"mode": "aniso", "shape": [int(rng.randint(3, 4)) for _ in range(3)]}
+    faces = {}
+    for ax in range(3):
+        lo, hi = rng.choice([("periodic", "periodic"), ("pec", "pec"), ("none", "none"), ("pmc", "pec"), ("periodic", "periodic")])
+        faces[Y.FACES[2 * ax]], faces[Y.FACES[2 * ax + 1]] = lo, hi
+    c["faces"] = faces
+    c["widths"] = [[50e-9 * rng.uniform(0.7, 1.5) for _ in range(n)] for n in c["shape"]] if rng.chance(0.4) else None
+    c["eps_tier"] = rng.choice([9, 9, 3])
+    c["mu_tier"] = 9 if c["eps_tier"] != 9 else rng.choice([0, 3, 9])
+    c["sig_e_tier"] = rng.choice([None, 9, 3])
+    c["sig_h_tier"] = rng.choice([None, None, 9])
+    c["a"], c["b"] = rng.choice([-1.0, 1.0]) * rng.uniform(0.3, 3.0), rng.choice([-1.0, 1.0]) * rng.uniform(0.3, 3.0)
+    c["seed"] = rng.np_seed()
+    return c
+
+
+def aniso_eval(c):
+    """forward() with full 3x3 material tensors from s1, s2 and a*s1 + b*s2 (source-free): superposition on the real
+    code; returns (detail, data for the model comparison)"""
+    from .yee_aniso_api import spd_tensor
+    sc = Y.build(c["shape"], c["faces"], widths=c["widths"], gradient=None)
+    r = np.random.default_rng(c["seed"])
+    shp = tuple(c["shape"])
+    n3 = (3,) + shp
+
+    def tens(tier, lo, hi, scale=1.0):
+        if tier is None:
+            return None
+        if tier == 0:
+            return float(r.uniform(lo, hi))
+        if tier == 9:
+            return scale * spd_tensor(r, shp)
+        return scale * r.uniform(lo, hi, (tier,) + shp)
+    inv_eps, inv_mu = tens(c["eps_tier"], 0.1, 1.0), tens(c["mu_tier"], 0.3, 1.0)
+    sig_e, sig_h = tens(c["sig_e_tier"], 0.2, 1.0, 2e-3), tens(c["sig_h_tier"], 0.2, 1.0, 4e2)
+    s1 = (r.standard_normal(n3), r.standard_normal(n3))
+    s2 = (r.standard_normal(n3), r.standard_normal(n3))
+    a, b = c["a"], c["b"]
+    s3 = (a * s1[0] + b * s2[0], a * s1[1] + b * s2[1])
+    outs = []
+    for s in (s1, s2, s3):
+        st = Y.impl_forward(sc, Y.with_state(sc, s[0], s[1], inv_eps, inv_mu, sig_e, sig_h), t=0, n=2)
+        outs.append((np.asarray(st[1].fields.E), np.asarray(st[1].fields.H)))
+    detail = None
+    for k, nm in ((0, "E"), (1, "H")):
+        e = _rel(outs[2][k], a * outs[0][k] + b * outs[1][k], max(abs(a) * _mx(outs[0][k]), abs(b) * _mx(outs[1][k])))
+        if not e <= TOL:
+            detail = f"full-tensor materials: {nm} after 2 forward() steps from a*s1 + b*s2 differs from a*{nm}(s1) + b*{nm}(s2) by {e:.3e}"
+            break
+    return detail, (sc, s3, outs[2], (inv_eps, inv_mu, sig_e, sig_h))
+
+
+def one_aniso_case(ctx, c):
+    from .yee_aniso_api import request_aniso
+    detail, (sc, s3, out3, mats) = aniso_eval(c)
+    line = request_aniso(sc, "afwd", s3[0], s3[1], mats[0], mats[1], mats[2], mats[3], None, 2)
+    mE, mH = Y.decode_fields(ctx.driver.ask(line), c["shape"])
+    ctx.expect_close("forward() x2 with full tensors vs afwd", c, np.concatenate([out3[0].ravel(), out3[1].ravel()]),
+                     np.concatenate([mE.ravel(), mH.ravel()]))
+    ctx.impl_property_evals += 1
+    ctx.case(nontrivial=("aniso", tuple(c["shape"]), c["seed"]), mode="full-tensor", aniso_eps_tier=c["eps_tier"], aniso_mu_tier=c["mu_tier"],
+             aniso_sig_e=str(c["sig_e_tier"]), aniso_sig_h=str(c["sig_h_tier"]), aniso_grid="nonuniform" if c["widths"] else "uniform")
+    if detail:
+        ctx.violation(c, detail)
 
 
 def probe_sources(sc, objs, t, inv_eps, sig_e, shape):
@@ -630,13 +755,14 @@ def one_case(ctx, c, sample=False):
     d1, data = forward_superposition(c, sc)
     # the shared Yee model has no ADE polarisation: scenes with a dispersive block are oracle-only
     d2 = None if c.get("dispersive") else model_part(ctx, c, sc, data)
+    npm = 0 if c.get("dispersive") else pml_model_part(ctx, c, sc, data)
     ncp = cpml_part(ctx, c, sc, ctx.rng)
     kinds = sorted(set(c["faces"].values()))
     nt = (tuple(c["shape"]), c["seed"]) if info.get("on1") and info.get("on2") else None
     ctx.case(sample={k: c[k] for k in ("shape", "faces", "sources", "steps", "amps", "gradient", "seed")} if sample else None,
              nontrivial=nt, n_sources=len(c["sources"]), grid="nonuniform" if c["widths"] else "uniform", gradient=str(c["gradient"]),
              sig_e=c["sig_e"], eps_tier=c["eps_tier"], both_sources_on=bool(nt), cpml_cells=ncp > 0,
-             dispersive=(c["dispersive"]["kind"] if c.get("dispersive") else "no"),
+             dispersive=(c["dispersive"]["kind"] if c.get("dispersive") else "no"), pml_layers_vs_model=npm,
              **{"src_" + s["kind"]: True for s in c["sources"]}, **{"sw_" + s["switch"]: True for s in c["sources"]},
              **{"face_" + k: True for k in kinds},
              **{"det_%s_%s%s" % (d["kind"], "reduced" if d["reduce"] else "full", "_exact" if d["exact"] else ""): True for d in c["detectors"]})
@@ -708,12 +834,17 @@ def run(ctx):
         rem.append(gen_removal_case(ctx.rng, True, ctx.rng.choice(["m", "e"])))
     for i, c in enumerate(rem):
         one_removal_case(ctx, c, sample=i == 0)
+    # full 3x3 material tensors: superposition on the real code + forward() vs the any-tier model `afwd`
+    for _ in range(ctx.scale(1, 6)):
+        one_aniso_case(ctx, gen_aniso_case(ctx.rng, ctx.thorough))
     # factor given at construction, separate placements at f0, -f0, 2 f0
     for k in range(ctx.scale(1, 4)):
         one_placed_case(ctx, gen_case(ctx.rng, ctx.thorough, placed_forced(ctx.seed, k)), sample=False)
 
 
 def property_fails(c):
+    if c.get("mode") == "aniso":
+        return aniso_eval(c)[0]
     if c.get("mode") == "removal":
         return removal_oracle(c)
     if c.get("mode") == "placed":
